@@ -22,6 +22,7 @@ def run(ck, fb):
     r08m(ck, fb)
     r08n(ck, fb)
     r08q(ck, fb)
+    r08r(ck, fb)
     ck.borrow('rules.c01', {'R01ac': 'R08p'}, 'a late joiner is filled from a snapshot: it must list the namespaces in the order the leader serves them')
     ck.borrow('rules.c05', {'R05h': 'R08i'}, 'the membership saved when a snapshot is installed must be the one recorded in that snapshot')
 
@@ -469,3 +470,21 @@ def r08q(ck, fb, R='R08q'):
     ck.require(bool(writes) or bool(arm_writes), R, 'get_next_id:allocation-recorded', g.where(),
                'get_next_id answers "last catalogued id + 1" and records nothing (the `building` guard it tests is never set): a local compaction that is still '
                'writing and an installation that arrives meanwhile get the same id, i.e. the same file', 'allocation recorded in %s' % sorted(set([f for (o, f) in writes] + arm_writes)))
+
+
+def r08r(ck, fb, R='R08r'):
+    ck.rule(R, 'a snapshot is read to its end: SnapshotReader::read_record declares the end of the file (is_end) only with the literal `true`, on the path '
+               'where a read returned no byte (or a record could not be completed) - never from the SIZE of a chunk. A chunk shorter than the buffer '
+               'is the last chunk, but the records it completes are still in the message buffer: "short read = end" hands out the first of them and '
+               'drops the rest (a node caught up by a 40-record snapshot serves 36)')
+    b = ck.body('rnacos::raft::filestore::raftsnapshot::SnapshotReader::read_record', R)
+    if not b:
+        return
+    from rn.facts import op_const
+    ws = [(x, bb, st) for x in [b] + [c for c in fb.tree(b.name)[1:]] for (o, f, bb, st) in x.field_writes() if f == 'is_end']
+    ck.floor(R, 'assignments of is_end in read_record', len(ws), 1)
+    for (x, bb, st) in ws:
+        c = op_const(st['rv']['op']) if st['rv']['k'] == 'use' else None
+        ck.require(c is not None, R, 'read_record:end-only-by-literal', x.where(bb),
+                   'is_end is computed from a value (the size of the chunk just read) instead of being set where the read returned nothing: the records the last '
+                   'chunk completes are never handed out', 'literal')
